@@ -12,7 +12,8 @@
      CB, DP              sequencer input (callbacks + flush, C02's sev) and output (C02's msg); net DP = Spec.dp_of
      graph up late       the calculation graph:  up  (everything in front of the sequencer)  ;  EventSequencer model of C02
 
-   STATUS OF THE MAIN THEOREM (c01_history_independent_partial): PARTIAL BY DESIGN.  It is proved for an abstract
+   STATUS OF THE MAIN THEOREM (c01_history_independent_partial, six slices, below): PARTIAL BY DESIGN.  The generic form
+   c01_graph_history_independent is proved for an abstract
    graph whose front part `up` is history-free (hypothesis up_hf).  Nodes for which that hypothesis is DISCHARGED by a
    machine-checked theorem about a model tied to the Go code:
        EventSequencer (C02: net effect + no panic)            - built into `graph`, theorem c01_sequencer_net_effect
@@ -34,7 +35,7 @@
 From stdpp Require Import gmap.
 From Verif.Common Require Import Sync.
 From Verif.C02 Require Import Model Spec.
-From Verif.C01 Require Import Model Spec Compose Instances Passthru L3Reflag L3Meets RoutesPools Fanin Refines Graph Dispatch RuleScanner GraphExample Slices.
+From Verif.C01 Require Import Model Spec Compose Instances Passthru L3Reflag L3Meets RoutesPools Fanin Refines Graph Dispatch RuleScanner GraphExample Slices Vxlan VxlanSlice.
 From Verif.C01 Require InstC04 InstC07 NodeC07 NodeC04 NodeC03 NodeC05 NodeC43.
 
 (* --- the graph model: a synchronous producer->consumer composition runs the consumer on everything the producer emitted *)
@@ -98,7 +99,8 @@ Theorem c01_graph_function_of_state : forall (K : Type) `{Countable K} (V : Type
 Proof. intros K ? ? V. exact (@graph_function_of_state K _ _ V). Qed.
 Print Assumptions c01_graph_function_of_state.
 
-(* MAIN THEOREM, PARTIAL: for every history h that ends in state D with in-sync signalled and a final flush, the
+(* GENERIC FORM (complete as a statement about the abstract graph; the property's theorem is c01_history_independent_partial
+   below): for every history h that ends in state D with in-sync signalled and a final flush, the
    dataplane described by everything the graph emitted equals the dataplane described by what a freshly started
    graph emits when fed only D (any enumeration order e).
    Missing to make it unconditional: the node lemma  [up_hf]  "the calculation graph in front of the sequencer is
@@ -106,7 +108,7 @@ Print Assumptions c01_graph_function_of_state.
    [hf] lemma each for ActiveRulesCalculator, RuleScanner, PolicyResolver+PolicySorter, L3RouteResolver,
    VXLANResolver, EncapsulationResolver, DataplanePassthru and ProfileDecoder; three of them are FALSE of the pinned
    code (known findings), true after fixes/C03-*.patch and fixes/C01-*.patch as far as the correspondence run shows. *)
-Theorem c01_history_independent_partial : forall (K : Type) `{Countable K} (V : Type) (up : node (dmsg K V) sev) late
+Theorem c01_graph_history_independent : forall (K : Type) `{Countable K} (V : Type) (up : node (dmsg K V) sev) late
     (admitted : list (dmsg K V) -> Prop) (Fup : gmap K V * bool -> world),
   hf (X := DS K V) (Y := CB) up admitted (seq_admits late) Fup ->
   forall h D e,
@@ -114,7 +116,7 @@ Theorem c01_history_independent_partial : forall (K : Type) `{Countable K} (V : 
     NoDup e.*1 -> list_to_map e = D -> admitted (fresh e) ->
     dp_of (n_outs (graph up late) h) = dp_of (n_outs (graph up late) (fresh e)).
 Proof. intros K ? ? V. exact (@graph_history_independent K _ _ V). Qed.
-Print Assumptions c01_history_independent_partial.
+Print Assumptions c01_graph_history_independent.
 
 (* the same with NO hypothesis about the graph, for the IP pool slice (passthru node -> sequencer): every history *)
 Theorem c01_history_independent_pools : forall h D e,
@@ -193,7 +195,7 @@ Qed.
    THE GRAPH ASSEMBLED FROM SLICES (Graph.v, Fanin.v, Slices.v, Dispatch.v, RuleScanner.v)
 
    graph6 = ( policy slice | rules slice | IP set slice | route slice | other slice | flusher ) ; EventSequencer
-   c01_history_independent (below) is the whole-graph theorem for it.  What is STILL ASSUMED, exactly:
+   c01_history_independent_partial (below) is the whole-graph theorem for it.  What is STILL ASSUMED, exactly:
      (H1) contract6: the merged callback stream of an admitted history is inside C02's sequencer contract and ends
           with the flush (C02's per-message checker verifies this on the real graph in every correspondence case);
      (H2) one history-freeness statement per slice: ep_hf, rules_hf, ipset_hf, route_hf, other_hf.
@@ -210,9 +212,15 @@ Qed.
                    pools/blocks/nodes/workloads to C43's operations inside C43's domain: sep/hop_ok/dop_ok), emitter;
                    C43's conclusion leaves pure pool-CIDR routes and nodes' own /32s unspecified: the emitter must not
                    depend on them (hypothesis of c01_slice_l3)
-     other slice   VXLANResolver, EncapsulationResolver: ASSUMED (no model); DataplanePassthru (pools, host metadata,
-                   wireguard) and ProfileDecoder (service accounts, namespaces): the generic passthru is PROVED
-                   (c01_passthru_hf) given the decoding of key and value to an id and a digest
+     other slice   = VTEP slice + rest (c01_other_slice_split).  VXLANResolver (IPv4+IPv6): node AND emitter PROVED
+                   (Vxlan.v, VxlanSlice.v: c01_vxlan_table_exact, c01_slice_vxlan - only its feeder is assumed), and the model
+                   is in the correspondence run (VX cases).  EncapsulationResolver: ASSUMED (no model; its Encapsulation
+                   message is compared history-vs-fresh by the run).  DataplanePassthru (pools, host metadata, wireguard)
+                   and ProfileDecoder (service accounts, namespaces): the generic passthru is PROVED (c01_passthru_hf)
+                   given the decoding of key and value to an id and a digest
+     MISSING LEMMAS, precisely (each is one [hf] statement; none needs a history argument beyond its own node):
+       feed_ep / emit_ep, emit_rules, feed_ipset / emit_ipset, feed_route / emit_route, feed_vtep, the encapsulation node,
+       and contract6
      dispatcher routing / local-remote endpoint filters: PROVED (c01_dispatch_routing_hf)
      flusher: PROVED (inside Graph.v)
    Every emitter hypothesis also asks that the emitter's image does not depend on the slack the node theorem leaves
@@ -237,7 +245,7 @@ Proof. exact @slice_hf. Qed.
 Print Assumptions c01_slice.
 
 (* MAIN THEOREM, restated with the smallest remaining hypothesis (see the box above): six slices + sequencer *)
-Theorem c01_history_independent : forall (K : Type) `{Countable K} (V : Type)
+Theorem c01_history_independent_partial : forall (K : Type) `{Countable K} (V : Type)
     (admitted : list (dmsg K V) -> Prop) late
     (s_ep s_rules s_ipset s_route s_other : node (dmsg K V) sev)
     (F_ep F_rules F_ipset F_route F_other : gmap K V * bool -> world),
@@ -252,7 +260,7 @@ Theorem c01_history_independent : forall (K : Type) `{Countable K} (V : Type)
     dp_of (n_outs (graph6 late s_ep s_rules s_ipset s_route s_other) h)
     = dp_of (n_outs (graph6 late s_ep s_rules s_ipset s_route s_other) (fresh e)).
 Proof. intros K ? ? V. exact (@graph6_history_independent K _ _ V). Qed.
-Print Assumptions c01_history_independent.
+Print Assumptions c01_history_independent_partial.
 
 (* its hypotheses are satisfiable, the contract included: a closed six-slice graph *)
 Theorem c01_history_independent_closed_example : forall h D e,
@@ -316,6 +324,41 @@ Print Assumptions c01_passthru_hf.
 Theorem c01_rulescanner_hf : hf (X := RSIN) (Y := RSOUT) rs_node (fun _ => True) (fun _ => True) used.
 Proof. exact rs_hf. Qed.
 Print Assumptions c01_rulescanner_hf.
+
+(* --- the VXLAN resolver (vxlan_resolver.go, IPv4 + IPv6): model node, emitter, slice *)
+(* after ANY history of Node / tunnel address / tunnel MAC updates (both families) the VTEP table the resolver has
+   emitted is exactly vtep_of the current inputs *)
+Theorem c01_vxlan_table_exact : forall (gen : N -> bool -> N) ops n,
+  net VT (n_outs (vx_nodeN gen) ops) !! n = vtep_of gen (net VXIN ops) n.
+Proof. intros gen ops n. exact (vx_table_exact gen ops n). Qed.
+Print Assumptions c01_vxlan_table_exact.
+
+Theorem c01_vxlan_history_free : forall (gen : N -> bool -> N) ops1 ops2,
+  net VXIN ops1 = net VXIN ops2 -> net VT (n_outs (vx_nodeN gen) ops1) = net VT (n_outs (vx_nodeN gen) ops2).
+Proof. exact vx_history_free. Qed.
+Print Assumptions c01_vxlan_history_free.
+
+(* the oracle the correspondence run applies to the REAL VXLANResolver's table accepts every run of the model *)
+Theorem c01_vxlan_model_meets_spec : forall (ops : list vxop) (g : list (N * (N * N))),
+  check_vx (mkVXCase ops (map_to_list (net VT (n_outs (vx_nodeN (gen_of g)) ops) : gmap N vtep)) g true) = (true, true).
+Proof. exact vx_model_meets_spec. Qed.
+Print Assumptions c01_vxlan_model_meets_spec.
+
+(* the VTEP slice with node and emitter proved: only the feeder is a hypothesis *)
+Theorem c01_slice_vxlan : forall (gen : N -> bool -> N) (enc : vtep -> N) (X : stype) (feed : node (s_msg X) vxop) (P : _ -> Prop) G,
+  hf (X := X) (Y := VXIN) feed P (fun _ => True) G ->
+  hf (X := X) (Y := CB) (slice feed (vx_nodeN gen) (pipe_map (vx_emit enc))) P (Forall (in_class (kclass [KVtep])))
+     (vt_world enc ∘ vt_table gen ∘ G).
+Proof. exact vxlan_slice_hf. Qed.
+Print Assumptions c01_slice_vxlan.
+
+Theorem c01_other_slice_split : forall (X : stype) (s_vtep s_rest : node (s_msg X) sev) (P : _ -> Prop) F_vtep F_rest,
+  hf (Y := CB) s_vtep P (Forall (in_class (kclass [KVtep]))) F_vtep ->
+  hf (Y := CB) s_rest P (Forall (in_class (kclass [KHost; KPool; KSA; KNS; KSvc]))) F_rest ->
+  hf (Y := CB) (fanin s_vtep s_rest) P (Forall (in_class (kclass [KVtep; KHost; KPool; KSA; KNS; KSvc])))
+     (fun x => wunion (F_vtep x) (F_rest x)).
+Proof. exact @other_slice_split. Qed.
+Print Assumptions c01_other_slice_split.
 
 (* --- node lemmas imported from the properties that own the node models *)
 Module IPSetIndex.
